@@ -70,6 +70,11 @@ def run(tier):
                                           "VF_READ_ONE": 2}, "buf-noeof-" + api, **LEDGER))
     jobs.append(BH.make_job("NR", [None], {"VF_BUDGET_DEFAULT": dev, "VF_BUDGET_TOTAL": dev, "VF_CALLMASK": full, "VF_MAX_OPS": dev,
                                            "VF_READ_ONE": 3, "VF_EXPECT_FATAL": '"scanner uses yyreject"'}, "buf-reject", options=["reject"] + LEDGER["options"], cdefs=LEDGER["cdefs"]))
+    # the in-memory sources under the address sanitizer: yy_scan_bytes / yy_scan_string are handed heap blocks of exactly the size they
+    # may read (round-7 seed C11-r7m3: two bytes too many copied)
+    mem_mask = (1 << 7) | (1 << 8) | (1 << 9) | (1 << 10)
+    for api in ("NR", "R", "C99"):
+        jobs.append(BH.make_job(api, [None], {"VF_BUDGET_DEFAULT": 2, "VF_BUDGET_TOTAL": 2, "VF_CALLMASK": mem_mask, "VF_MAX_OPS": 2}, "buf-mem-asan-" + api, san=True))
     # deep nesting: pushes from actions and between calls well beyond the initial stack allocation
     deep_src = [b"ab\nba" if i % 2 else b"b\naab" for i in range(40)]
     for api in ("NR", "R", "C99"):
